@@ -197,6 +197,19 @@ class Driver:
             "attributes": {"step_count": self.step_count},
         }
 
+    def todict(self) -> dict[str, Any]:
+        """
+        ASE-style alias of `to_dict`, used by `ase.io.jsonio` (and therefore by the
+        restart observer). It dispatches at call time so that subclasses overriding
+        `to_dict` are serialized with their own method.
+
+        Returns
+        -------
+        dict[str, Any]
+            A dictionary representation of the simulation.
+        """
+        return self.to_dict()
+
     @property
     def default_logger(self) -> Logger | None:
         """
